@@ -207,12 +207,12 @@ func (r *Raft) Serve(l net.Listener) error {
 	defer close(r.fsm.ch)
 
 	// restore fsm from last snapshot, if present
-	if r.snaps.index > 0 {
+	if snapIndex, _ := r.snaps.latest(); snapIndex > 0 {
 		r.fsm.ch <- fsmRestoreReq{r.fsmRestoredCh}
 		if err := <-r.fsmRestoredCh; err != nil {
 			return err
 		}
-		r.commitIndex = r.snaps.index
+		r.commitIndex = snapIndex
 	}
 
 	s := newServer(r, l)
